@@ -21,6 +21,7 @@ func init() {
 			c.ruleMessageSetFrame("R-MSET-FRAME")
 			c.ruleLazyBufRecords("R-LAZYBUF-RECORDS", 3)
 			c.ruleExtLazyParity("R-EXT-LAZY-PARITY", extLazyPairs, 3)
+			c.ruleConsumeTagRange("R-CONSUMETAG-RANGE", []string{"internal/encoding/messageset"}, 4)
 			c.ruleUnknownGuard("R-UNKNOWN-GUARD", 5)
 			c.ruleNegLen("R-NEG-LEN", []string{"internal/encoding/messageset"}, map[string]string{
 				"internal/encoding/messageset.ConsumeFieldValue nn": "re-parses the length prefix of `message`, which is b[:n:n] of a ConsumeBytes call that already succeeded in this function",
